@@ -568,6 +568,17 @@ class Incremental(object):
             # cannot express: path condition is weakened (sound for proving, may explore infeasible paths)
             self.broken = str(e)
 
+    def model_value(self, t):
+        """value of term t in some model of the path condition (None if the path condition is unsatisfiable)"""
+        r = check(list(self.pc), rlimit=self.rl * 4, want_model=True, use_cvc5=False)
+        if r.status == "unsat":
+            return None
+        if r.status != "sat":
+            from .path import Unsupported
+            raise Unsupported("cannot find a model of the path condition to pick a value (%s)" % r.reason)
+        from .terms import eval_term
+        return eval_term(t, r.model)
+
     def feasible(self, t):
         """'sat' | 'unsat' | 'unknown' for PC and t"""
         if t is False:
